@@ -101,11 +101,15 @@ def gen_encodings():
     out += "/-- bomDict of detectBOM in source order: BOM bytes ↦ label handed to lookupEncoding -/\n"
     out += "def bomDict : List (List Nat × Str) := [\n  %s]\n" % ",\n  ".join(
         "(%s, %s)" % (_bytes_lit(k), lean_str_c(v)) for k, v in bom.items())
-    # the three probes string[:3], string, string[:2] and the seek values, from the AST
+    # the two probes string[:3], string[:2], the read size and the seek values, from the AST
     consts = [n.value for n in ast.walk(fn) if isinstance(n, ast.Constant) and isinstance(n.value, int)
               and not isinstance(n.value, bool)]
-    if sorted(consts) != [0, 2, 2, 3, 3, 4, 4]:
+    if sorted(consts) != [0, 2, 2, 3, 3, 4]:
         raise TranslationError("detectBOM: unexpected integer constants %r" % consts)
+    # the seek past the BOM is clamped to what read(4) returned: `seek(min(seek, len(string)))`
+    mins = [n for n in ast.walk(fn) if isinstance(n, ast.Call) and getattr(n.func, "id", None) == "min"]
+    if len(mins) != 1:
+        raise TranslationError("detectBOM: expected exactly one min(...) call (clamped seek)")
     # -- prescan byte classes
     out += "def spaceBytes : List Nat := %s\n" % _byteset(I.spaceCharactersBytes)
     out += "def asciiLetterBytes : List Nat := %s\n" % _byteset(I.asciiLettersBytes)
